@@ -359,3 +359,79 @@ def run_key_lengths(ctx, max_pow):
                                       f"md5 of the whole key selects {json.dumps(want)}", {"key_length": n, "body": body, "last": last, "fields": form, "impl": got, "spec": want})
                         return
         ctx.case(("key-length", n), True)
+
+
+def run_numeric_twin_sequences(ctx):
+    """weight vectors that compare EQUAL element by element but are of different numeric type (floats, ints, Fractions), given one after the other in one
+    process, with running totals above 2^53 where the float sums of the one round and the integer sums of the other do not: the answer for the integer
+    vector is the exact one whatever was asked before (the function remembers nothing about an earlier, equal-looking call)"""
+    from pyab_experiment.binning import binning
+    M = 2 ** 53
+    plans = [([M, 1, M - 1], 2 ** 31), ([2 ** 60, 3, 2 ** 60 - 3, 2 ** 61], 2 ** 30), ([M, 1, 1, M - 2], 2 ** 31), ([2 ** 70, 2 ** 17 - 1, 2 ** 70 - 2 ** 17 + 1], 2 ** 31),
+             ([3 * 2 ** 60, 5, 2 ** 60 - 5], 3 * 2 ** 30)]
+    with SubstitutedPosition():
+        for v, h in plans:
+            pop = list("ABCDEFG"[:len(v)])
+            want = {"g": common.enc_val(pop[_exact_index(v, h)])}
+            for order in (("float", "int"), ("int", "float", "int"), ("float-tuple", "int-tuple"), ("fraction", "float", "int"), ("float-cum", "int-cum")):
+                seq = []
+                for kind in order:
+                    cum = kind.endswith("-cum")
+                    vals = list(itertools.accumulate(v)) if cum else list(v)
+                    conv = float if kind.startswith("float") else Fraction if kind.startswith("fraction") else int
+                    ws = [conv(x) for x in vals]
+                    if kind.endswith("-tuple"):
+                        ws = tuple(ws)
+                    got = common.outcome_of(lambda: binning.deterministic_choice(str(h), pop, **({"cum_weights": ws} if cum else {"weights": ws})))
+                    seq.append([kind, got])
+                    ctx.count("numeric-twins:" + kind.split("-")[0])
+                    if conv is not float and not common.same_outcome(got, want):
+                        ctx.case(("numeric-twins", tuple(v), order), True)
+                        ctx.violation(f"deterministic_choice at position {h}/2^32 with the {kind} weights {v} returns {json.dumps(got)} after the same values were given as "
+                                      f"{', '.join(k for k, _ in seq[:-1]) or 'nothing'}; exact arithmetic on these integers selects {json.dumps(want)}",
+                                      {"weights": [str(x) for x in v], "h": h, "sequence_of_types": [k for k, _ in seq], "answers": seq, "spec": want})
+                        return
+            ctx.case(("numeric-twins", tuple(v)), True)
+
+
+def run_ulp_boundaries(ctx):
+    """boundaries ONE UNIT IN THE LAST PLACE above, on and below a unit's scaled position, for totals next to a round number (N +- 2^-j): every quantity the
+    function forms is exactly representable here (position m/2^16, total of at most 37 bits), so the answer is determined with no tolerance at all — the
+    unit belongs to the group whose interval [lo, hi) contains position * total, computed with the total AS GIVEN"""
+    import math as _m
+    from pyab_experiment.binning import binning
+    pop = ["A", "B", "C"]
+    with SubstitutedPosition():
+        for N in (1, 3, 100, 1000):
+            for j in (8, 12, 16, 20, 24, 28, 30, 33, 36):
+                for sg in (-1, 1):
+                    T = N + sg * 2.0 ** -j
+                    if Fraction(T) != Fraction(N) + sg * Fraction(1, 2 ** j):
+                        continue
+                    for m16 in (1, 12345, 27598, 32768, 40000, 65535):
+                        h = m16 << 16
+                        pos_q = Fraction(h, 2 ** 32) * Fraction(T)
+                        pos = float(pos_q)
+                        if Fraction(pos) != pos_q:
+                            continue
+                        for name, c1 in (("one ulp above", _m.nextafter(pos, _m.inf)), ("equal to", pos), ("one ulp below", _m.nextafter(pos, 0.0))):
+                            if not (0 < c1 < T):
+                                continue
+                            c2 = (c1 + T) / 2
+                            want_i = 0 if pos_q < Fraction(c1) else 1 if pos_q < Fraction(c2) else 2
+                            want = {"g": common.enc_val(pop[want_i])}
+                            forms = [("cum_weights", {"cum_weights": [c1, c2, T]})]
+                            w2, w3 = c2 - c1, T - c2
+                            if Fraction(c1) + Fraction(w2) == Fraction(c2) and Fraction(c2) + Fraction(w3) == Fraction(T) and c1 + w2 == c2 and c2 + w3 == T:
+                                forms.append(("weights", {"weights": [c1, w2, w3]}))
+                            for form, kw in forms:
+                                got = common.outcome_of(lambda: binning.deterministic_choice(str(h), pop, **kw))
+                                ctx.count("ulp-boundary:" + form)
+                                if not common.same_outcome(got, want):
+                                    ctx.case(("ulp-boundary", N, j, sg, m16, name, form), True)
+                                    ctx.violation(f"total {T!r} (= {N} {'+' if sg > 0 else '-'} 2^-{j}), unit at position {m16}/2^16: position * total = {pos!r} exactly; with the first boundary "
+                                                  f"{name} that ({c1!r}) the {form} form returns {json.dumps(got)}, the interval rule selects {json.dumps(want)}",
+                                                  {"h": h, "total": repr(T), "scaled_position": repr(pos), "first_boundary": repr(c1), "form": form,
+                                                   "args": {k: [repr(x) for x in v] for k, v in kw.items()}, "impl": got, "spec": want})
+                                    return
+                ctx.case(("ulp-boundary", N, j), True)
